@@ -38,7 +38,7 @@ ReachesCycle(P, id) == OnCycle(P, id) \/ \E y \in Deps(P, id) : OnCycle(P, y)
 (* [entity |-> attribute name |-> [over: referrer entities (with subtypes), via: "a" | "b", single: BOOLEAN]] *)
 InvDecl(ty) ==
   \* (isubsub inherits the attribute over two levels, idia along two supertype paths: it is still one attribute)
-  CASE ty \in {"inode", "isubnode", "isubsub", "idl", "idia"} -> {[name |-> "owners", over |-> {"iholder", "isub"}, via |-> "a", single |-> FALSE]}
+  CASE ty \in {"inode", "isubnode", "isubsub", "idl", "idia"} -> {[name |-> "owners", over |-> {"iholder", "isub", "imulti"}, via |-> "a", single |-> FALSE]}
     [] ty = "irec" -> {[name |-> "children", over |-> {"irec"}, via |-> "a", single |-> FALSE]}
     [] ty = "ione" -> {[name |-> "owner", over |-> {"ilink"}, via |-> "a", single |-> TRUE]}
     [] ty = "itwo" -> {[name |-> "a_of", over |-> {"ipair"}, via |-> "a", single |-> FALSE],
